@@ -870,6 +870,7 @@ func checkC05(w *World, c *Check, tier string) {
 	c.floor("C05.R-cover", 300)
 	checkNothingInvented(w, c, t, "C05.invent")
 	checkCarriedState(w, c, "C05.carry")
+	checkGettersValueBlind(w, c, "C05.invent")
 	c.floor("C05.R-map", 20)
 	c.floor("C05.shape", 2)
 	c.floor("C05.elements", 2)
@@ -1767,4 +1768,90 @@ func valueFromPkg(v ssa.Value, frag string, d int, seen map[ssa.Value]bool) bool
 		}
 	}
 	return false
+}
+
+// checkGettersValueBlind: the scalar getters of the decoder (JSONGet* returning a time, a duration, a number or a bool)
+// decide what to return from the presence of the member and the parser's verdict only — never from the decoded value
+// itself. A branch on the value ("the Unix epoch stands for no date: return the zero time") makes some documents'
+// values disappear: they are read as unset and are no longer written back.
+func checkGettersValueBlind(w *World, c *Check, rule string) {
+	n := 0
+	for _, f := range w.Funcs {
+		if f.Parent() != nil || f.Signature.Recv() != nil || !strings.HasPrefix(f.Name(), "JSONGet") || f.Blocks == nil || f.Signature.Results().Len() != 1 || !w.InPkg(f) {
+			continue
+		}
+		rt := f.Signature.Results().At(0).Type()
+		scalar := false
+		if b, ok := types.Unalias(rt).Underlying().(*types.Basic); ok && b.Info()&types.IsNumeric != 0 {
+			scalar = true // (a bool getter's conditions are bools themselves: not judged)
+		}
+		if nm := namedOf(rt); nm != nil && nm.Obj().Pkg() != nil && nm.Obj().Pkg().Path() == "time" {
+			scalar = true
+		}
+		if !scalar {
+			continue
+		}
+		n++
+		var fromValue func(v ssa.Value, d int, seen map[ssa.Value]bool) bool
+		fromValue = func(v ssa.Value, d int, seen map[ssa.Value]bool) bool {
+			if v == nil || d > 8 || seen[v] {
+				return false
+			}
+			seen[v] = true
+			if _, isConst := v.(*ssa.Const); isConst {
+				return false
+			}
+			if types.Identical(v.Type(), rt) {
+				return true
+			}
+			if p, isPtr := types.Unalias(v.Type()).(*types.Pointer); isPtr && types.Identical(p.Elem(), rt) {
+				if _, isAl := v.(*ssa.Alloc); isAl {
+					return true
+				}
+			}
+			switch x := v.(type) {
+			case *ssa.BinOp:
+				return fromValue(x.X, d+1, seen) || fromValue(x.Y, d+1, seen)
+			case *ssa.UnOp:
+				return fromValue(x.X, d+1, seen)
+			case *ssa.Convert:
+				return fromValue(x.X, d+1, seen)
+			case *ssa.ChangeType:
+				return fromValue(x.X, d+1, seen)
+			case *ssa.Extract:
+				return fromValue(x.Tuple, d+1, seen)
+			case *ssa.Phi:
+				for _, e := range x.Edges {
+					if fromValue(e, d+1, seen) {
+						return true
+					}
+				}
+			case *ssa.Call:
+				// a method of the decoded value (t.Unix(), t.IsZero(), d.Seconds())
+				if cal := x.Common().StaticCallee(); cal != nil && cal.Signature.Recv() != nil && len(x.Common().Args) > 0 {
+					if isErrorType(x.Type()) {
+						return false // the parser's verdict (t.UnmarshalText(str) != nil)
+					}
+					return fromValue(x.Common().Args[0], d+1, seen)
+				}
+			}
+			return false
+		}
+		bad := false
+		for _, b := range f.Blocks {
+			iff, ok := b.Instrs[len(b.Instrs)-1].(*ssa.If)
+			if !ok {
+				continue
+			}
+			if fromValue(iff.Cond, 0, map[ssa.Value]bool{}) {
+				bad = true
+				c.bad(rule, "getter-decides-from-value:"+funcName(f), w.InstrPos(iff), fmt.Sprintf("%s branches on the value it has decoded: for the documents whose value falls on one side (a date at or before the Unix epoch, a zero) the getter returns something else than what the document says, and the property is read as unset", funcName(f)))
+				break
+			}
+		}
+		if !bad {
+			c.ok(rule, "getter-decides-from-value:"+funcName(f), w.FuncPos(f), "branches on presence and parser verdicts only")
+		}
+	}
+	c.stat("scalar_getters", n)
 }
